@@ -12,7 +12,7 @@ INFO = dict(
  bounds='target fiber + 1-2 actors from {join, 2 x tryjoin, detach}; spin bound 1; all interleavings (SC)',
  outside='more than 2 actors; joining maintenance/thread fibers')
 
-J, Y, D = 1, 2, 3
+J, Y, D, N = 1, 2, 3, 4
 
 
 def _spec(nf):
@@ -31,6 +31,7 @@ def plan(tier, ctx):
     j += cfg('join', [J])
     j += cfg('detach', [D])
     if tier == 'thorough':
+        j += cfg('join_noresult', [N], timeout=3000, required=False)
         j += cfg('tryjoin', [Y], timeout=3000, required=False)
         j += cfg('join_detach', [J, D], timeout=3000, required=False)
         j += cfg('join_join', [J, J], timeout=3000, required=False)
